@@ -325,3 +325,43 @@ def select_cases():
             ss.append(p.emit([p.str("asg"), p.call(p.id("pcall"), [asg])]))
         out.append((p, p.block(ss)))
     return out
+
+
+def vararg_after_call_cases():
+    """a fixed number of values taken from '...' right after a call has returned (the call lowers the register top;
+    the values must still be readable by whatever comes next), callee Lua or host, vararg or not"""
+    out = []
+    callees = {"lua": lambda p: p.func([], p.block([p.ret([p.num(5)])])), "luava": lambda p: p.func([], p.block([p.ret([p.dots()])]), va=True, ud=True),
+               "none": lambda p: p.func([], p.block([p.ret([])]))}
+    shapes = ["local_then_return", "two_locals", "ret_list", "arg_list", "arg_list_paren", "assign_existing", "after_stmt_call", "in_table", "cond"]
+    for ck, sh, nva in itertools.product(list(callees) + ["host"], shapes, [0, 1, 3]):
+        p = Prog()
+        ss = []
+        if ck == "host":
+            g = lambda: p.call(p.id("gret"), [p.num(1), p.num(5)])
+        else:
+            ss.append(p.localfunction("g", callees[ck](p)))
+            g = lambda: p.call(p.id("g"), [p.num(8), p.num(9)])
+        if sh == "local_then_return":
+            body = [p.local(["x"], [g()]), p.local(["a"], [p.dots()]), p.ret([p.id("a"), p.id("x")])]
+        elif sh == "two_locals":
+            body = [p.local(["x"], [g()]), p.local(["a", "b"], [p.dots()]), p.ret([p.id("b"), p.id("a"), p.id("x")])]
+        elif sh == "ret_list":
+            body = [p.local(["x"], [g()]), p.ret([p.id("x"), p.paren(p.dots())])]
+        elif sh == "arg_list":
+            body = [p.ret([p.call(p.id("select"), [p.num(2), g(), p.paren(p.dots())])])]
+        elif sh == "arg_list_paren":
+            body = [p.ret([p.call(p.id("gret"), [p.num(3), p.paren(g()), p.paren(p.dots()), p.num(7)])])]
+        elif sh == "assign_existing":
+            body = [p.local(["a", "b", "c"], [p.num(1), p.num(2), p.num(3)]), p.callstat(g()), p.assign([p.id("b")], [p.dots()]), p.ret([p.id("a"), p.id("b"), p.id("c")])]
+        elif sh == "after_stmt_call":
+            body = [p.callstat(g()), p.local(["a"], [p.dots()]), p.emit([p.str("in"), p.id("a")]), p.ret([p.id("a")])]
+        elif sh == "in_table":
+            body = [p.local(["x"], [g()]), p.local(["t"], [p.table([("p", p.paren(p.dots())), ("p", p.id("x"))])]), p.ret([p.index(p.id("t"), p.num(1)), p.index(p.id("t"), p.num(2))])]
+        else:
+            body = [p.local(["x"], [g()]), p.if_([p.paren(p.dots())], [p.block([p.ret([p.str("truthy"), p.id("x")])])]), p.ret([p.str("falsy"), p.id("x")])]
+        ss.append(p.localfunction("f", p.func([], p.block(body), va=True, ud=True)))
+        ss.append(p.emit([p.str("r"), p.call(p.id("f"), [p.num(10 + i) for i in range(nva)])]))
+        ss.append(p.emit([p.str("p"), p.call(p.id("pcall"), [p.id("f")] + [p.num(20 + i) for i in range(nva)])]))
+        out.append((p, p.block(ss)))
+    return out
